@@ -2030,7 +2030,7 @@ Proof.
   - inversion Hc as [|? ? Hc1 Hc2]. destruct (nb_step_spec m c Hr Hc1) as (m1 & E1 & L1 & R1 & N1).
     destruct (IH m1 R1) as (m' & E2 & L2 & R2 & N2); [rewrite L1; exact Hc2|].
     exists m'. cbn [orun]. rewrite E1. split; [exact E2|]. split; [congruence|]. split; [exact R2|].
-    intros j. rewrite N2, N1. destruct (nthZ m (j - 1)); cbn [option_map]; [rewrite T2_cons; reflexivity|reflexivity].
+    intros j. rewrite N2, N1. destruct (nthZ m (j - 1)); cbn [option_map]; [rewrite (T2_cons j c r); reflexivity|reflexivity].
 Qed.
 Lemma nb_true_nth s j : nthZ (nb_true s) (j - 1) = option_map (fun _ : node => [cntb negb s j; cntb (fun b => b) s j]) (nthZ (nodes s) (j - 1)).
 Proof.
@@ -2045,7 +2045,7 @@ Proof.
   assert (R0 : rows2 (nb_true s)).
   { unfold rows2, nb_true. apply Forall_forall. intros r Hr. apply in_map_iff in Hr as (nd & <- & _). reflexivity. }
   destruct (nb_run cs (nb_true s) R0) as (m' & E & Lm & Rm & N); [unfold nb_true at 1; rewrite map_length, L; exact Hc|].
-  rewrite E. f_equal. unfold nb_true at 2 in Lm. rewrite map_length in Lm.
+  rewrite E. f_equal. unfold nb_true in Lm. rewrite map_length in Lm.
   apply list_ext_nth; [unfold nb_true; rewrite map_length; congruence|].
   intros k row Hk. rewrite <- nthZ_of_nat in Hk. replace (Z.of_nat k) with ((Z.of_nat k + 1) - 1) in Hk by lia.
   rewrite N, nb_true_nth in Hk. rewrite <- nthZ_of_nat. replace (Z.of_nat k) with ((Z.of_nat k + 1) - 1) by lia. rewrite nb_true_nth.
@@ -2069,7 +2069,7 @@ Proof.
   destruct (hb_event_step cf (fun b => b) Hsc s tt s' _ HX HW HN HE) as (_ & _ & D2).
   destruct (hw_event_step cf (length (nsh s)) s tt s' _ (WFx2_Idx _ _ HW) eq_refl I HE) as (_ & B & C & _).
   split; [exact W1|]. split; [exact N1|].
-  unfold nsh in B, C. rewrite map_length in B, C. eapply nb_track; [reflexivity|exact B|exact C|exact D1|exact D2].
+  unfold nsh in B, C. rewrite !map_length in B. rewrite map_length in C. eapply nb_track; [reflexivity|exact B|exact C|exact D1|exact D2].
 Qed.
 
 (* the hypothesis along a run: it holds before every event *)
@@ -2124,4 +2124,157 @@ Proof.
   induction ds as [|d r IH]; intros s H; cbn [nextunbl_run_b NextUnbl_run] in *; [exact I|].
   apply andb_true_iff in H as [H1 H2]. split; [apply nextunbl_b_sound; exact H1|].
   destruct (event_step cf (s <| dr := d |>)) as [[u s1]| |]; [apply IH; exact H2|exact I|exact I].
+Qed.
+
+(* ---------- what survives in the regions of F-02a / F-02b, for EVERY configuration: the row sums of NaiveBlocking and of
+   NodeClassMatrix are the node populations (the drift is a mis-attribution between blocked / unblocked, or between classes) ---------- *)
+Lemma tk_updZ_same {X} (l : list X) k a : nthZ l k = Some a -> updZ l k a = l.
+Proof. unfold nthZ, updZ. destruct (k <? 0); [discriminate|]. apply upd_same. Qed.
+Lemma inc2_zsum m k c d m' : inc2 m k c d = Some m' -> inc1 (map zsum m) k d = Some (map zsum m').
+Proof.
+  unfold inc2. destruct (nthZ m k) as [row|] eqn:E; [|discriminate]. destruct (inc1 row c d) as [row'|] eqn:E1; [|discriminate].
+  intros H. injection H as <-. unfold inc1 at 1. rewrite nthZ_map, E. cbn [option_map]. rewrite tk_updZ_map, (inc1_zsum _ _ _ _ E1). reflexivity.
+Qed.
+Lemma inc1_back v k d v1 v2 : inc1 v k d = Some v1 -> inc1 v1 k (- d) = Some v2 -> v2 = v.
+Proof.
+  unfold inc1. destruct (nthZ v k) as [a|] eqn:E; [|discriminate]. intros H. injection H as <-.
+  rewrite (tk_nthZ_updZ_eq _ _ _ _ E). intros H. injection H as <-. rewrite tk_updZ_updZ.
+  replace (a + d + - d) with a by lia. apply tk_updZ_same. exact E.
+Qed.
+Lemma nb_rowsim m c m' : nb_step m c = Some m' -> np_step (map zsum m) c = Some (map zsum m').
+Proof.
+  destruct c as [j c0|j d0 i0 pc|j d0 i0 pc bb|j pc c0]; cbn [nb_step np_step]; intros H.
+  - exact (inc2_zsum _ _ _ _ _ H).
+  - destruct (inc2 m (j - 1) 1 1) as [m1|] eqn:E1; [|discriminate]. f_equal. symmetry.
+    exact (inc1_back _ _ _ _ _ (inc2_zsum _ _ _ _ _ E1) (inc2_zsum _ _ _ _ _ H)).
+  - destruct bb; exact (inc2_zsum _ _ _ _ _ H).
+  - injection H as <-. reflexivity.
+Qed.
+Lemma cm_rowsim m c m' : cm_step m c = Some m' -> np_step (map zsum m) c = Some (map zsum m').
+Proof.
+  destruct c as [j c0|j d0 i0 pc|j d0 i0 pc bb|j pc c0]; cbn [cm_step np_step]; intros H.
+  - exact (inc2_zsum _ _ _ _ _ H).
+  - injection H as <-. reflexivity.
+  - exact (inc2_zsum _ _ _ _ _ H).
+  - destruct (inc2 m (j - 1) pc (-1)) as [m1|] eqn:E1; [|discriminate]. f_equal. symmetry.
+    apply (inc1_back _ _ (-1) _ _ (inc2_zsum _ _ _ _ _ E1)). exact (inc2_zsum _ _ _ _ _ H).
+Qed.
+Theorem run_many_rowsums2 cf ds s s' m0 : Idx s -> run_many cf s ds = Ok s' -> map zsum m0 = np_true s ->
+  (forall m', orun nb_step (calls_many cf s ds) m0 = Some m' -> map zsum m' = np_true s') /\
+  (forall m', orun cm_step (calls_many cf s ds) m0 = Some m' -> map zsum m' = np_true s').
+Proof.
+  intros HI H E0. destruct (run_many_trackers2 cf ds s s' HI H) as [_ [_ T]]. rewrite <- E0 in T. split; intros m' Hm.
+  - pose proof (orun_map nb_step np_step (map zsum) nb_rowsim _ _ _ Hm) as T'. congruence.
+  - pose proof (orun_map cm_step np_step (map zsum) cm_rowsim _ _ _ Hm) as T'. congruence.
+Qed.
+
+(* ---------- NodePopulationSubset and GroupedNodePopulation (update functions and proofs verbatim from TrackerInc.v): they are
+   functions of NodePopulation, so they hold for every configuration as well ---------- *)
+Lemma memZ_app x a b : memZ x (a ++ b) = memZ x a || memZ x b.
+Proof. induction a as [|y a IH]; cbn; [reflexivity|]. rewrite IH, orb_assoc. reflexivity. Qed.
+Lemma memZ_false x l : memZ x l = false -> ~ In x l.
+Proof. intros H Hin. apply memZ_In in Hin. congruence. Qed.
+(* ---------- NodePopulationSubset(observed_nodes): state[observed_nodes.index(id - 1)] += 1 / -= 1 when id - 1 is observed ---------- *)
+Fixpoint indexN (x : Z) (l : list Z) : nat := match l with [] => O | y :: r => if x =? y then O else S (indexN x r) end.
+Definition popz (pops : list Z) (o : Z) : Z := match nthZ pops o with Some a => a | None => 0 end.
+Definition sub_step (obs : list Z) (v : list Z) (c : call) : option (list Z) :=
+  match c with
+  | Acc j _ => if memZ (j - 1) obs then inc1 v (Z.of_nat (indexN (j - 1) obs)) 1 else Some v
+  | Rel j _ _ _ _ => if memZ (j - 1) obs then inc1 v (Z.of_nat (indexN (j - 1) obs)) (-1) else Some v
+  | _ => Some v
+  end.
+Definition sub_of (obs : list Z) (pops : list Z) : list Z := map (popz pops) obs.
+Definition sub_true (obs : list Z) (s : sim) : list Z := sub_of obs (np_true s).
+
+Lemma popz_inc pops k d pops' : inc1 pops k d = Some pops' ->
+  popz pops' k = popz pops k + d /\ forall o, o <> k -> popz pops' o = popz pops o.
+Proof.
+  unfold inc1. destruct (nthZ pops k) as [a|] eqn:E; [|discriminate]. intros H. injection H as <-. unfold popz. split.
+  - rewrite (tk_nthZ_updZ_eq _ _ _ _ E), E. reflexivity.
+  - intros o Ho. rewrite tk_nthZ_updZ_neq by exact Ho. reflexivity.
+Qed.
+Lemma nth_indexN k obs : In k obs -> nth_error obs (indexN k obs) = Some k.
+Proof.
+  induction obs as [|y r IH]; intros H; [destruct H|]. cbn [indexN]. destruct (Z.eqb_spec k y) as [->|Hne]; [reflexivity|].
+  destruct H as [H|H]; [congruence|]. cbn. apply IH. exact H.
+Qed.
+Lemma map_change_nodup (f f' : Z -> Z) obs k : NoDup obs -> In k obs -> (forall o, o <> k -> f' o = f o) ->
+  map f' obs = upd (map f obs) (indexN k obs) (f' k).
+Proof.
+  induction obs as [|y r IH]; intros Hnd Hin Ho; [destruct Hin|]. inversion Hnd as [|? ? Hn Hd]; subst.
+  cbn [indexN map]. destruct (Z.eqb_spec k y) as [->|Hne].
+  - cbn [upd]. f_equal. apply map_ext_in. intros o Hoin. apply Ho. intros ->. exact (Hn Hoin).
+  - destruct Hin as [Hin|Hin]; [congruence|]. cbn [upd]. rewrite (Ho y) by congruence. f_equal. apply IH; assumption.
+Qed.
+Lemma sub_core obs pops k d pops' : NoDup obs -> inc1 pops k d = Some pops' ->
+  (if memZ k obs then inc1 (sub_of obs pops) (Z.of_nat (indexN k obs)) d else Some (sub_of obs pops)) = Some (sub_of obs pops').
+Proof.
+  intros Hnd H. destruct (popz_inc _ _ _ _ H) as [P1 P2]. unfold sub_of. destruct (memZ k obs) eqn:Em.
+  - apply memZ_In in Em. unfold inc1. rewrite nthZ_of_nat, nth_error_map, (nth_indexN _ _ Em). cbn [option_map].
+    rewrite updZ_nat. f_equal. rewrite <- P1. symmetry. apply map_change_nodup; assumption.
+  - f_equal. apply map_ext_in. intros o Ho. symmetry. apply P2. intros ->. exact (memZ_false _ _ Em Ho).
+Qed.
+Lemma sub_sim obs pops c pops' : NoDup obs -> np_step pops c = Some pops' -> sub_step obs (sub_of obs pops) c = Some (sub_of obs pops').
+Proof.
+  intros Hnd. destruct c; cbn [np_step sub_step]; intros H; try (injection H as <-; reflexivity); apply sub_core; assumption.
+Qed.
+
+
+(* ---------- GroupedNodePopulation(groups): state[first group containing id - 1] += 1 / -= 1 when id - 1 is in some group ---------- *)
+Fixpoint gidxN (x : Z) (gs : list (list Z)) : nat := match gs with [] => O | g :: r => if memZ x g then O else S (gidxN x r) end.
+Definition grp_step (gs : list (list Z)) (v : list Z) (c : call) : option (list Z) :=
+  match c with
+  | Acc j _ => if memZ (j - 1) (concat gs) then inc1 v (Z.of_nat (gidxN (j - 1) gs)) 1 else Some v
+  | Rel j _ _ _ _ => if memZ (j - 1) (concat gs) then inc1 v (Z.of_nat (gidxN (j - 1) gs)) (-1) else Some v
+  | _ => Some v
+  end.
+Definition grp_of (gs : list (list Z)) (pops : list Z) : list Z := map (fun g => zsum (map (popz pops) g)) gs.
+Definition grp_true (gs : list (list Z)) (s : sim) : list Z := grp_of gs (np_true s).
+
+Lemma zsum_change (f f' : Z -> Z) g k d : NoDup g -> In k g -> f' k = f k + d -> (forall o, o <> k -> f' o = f o) ->
+  zsum (map f' g) = zsum (map f g) + d.
+Proof.
+  induction g as [|y r IH]; intros Hnd Hin Hk Ho; [destruct Hin|]. inversion Hnd as [|? ? Hn Hd]; subst.
+  cbn [map]. rewrite !zsum_cons. destruct (Z.eq_dec y k) as [->|Hne].
+  - rewrite Hk. assert (E : map f' r = map f r) by (apply map_ext_in; intros o Hoin; apply Ho; intros ->; exact (Hn Hoin)).
+    rewrite E. lia.
+  - destruct Hin as [Hin|Hin]; [congruence|]. rewrite (Ho y Hne), (IH Hd Hin Hk Ho). lia.
+Qed.
+Lemma inc1_cons_0 h t d : inc1 (h :: t) (Z.of_nat 0) d = Some ((h + d) :: t).
+Proof. reflexivity. Qed.
+Lemma inc1_cons_S h t n d : inc1 (h :: t) (Z.of_nat (S n)) d = option_map (cons h) (inc1 t (Z.of_nat n) d).
+Proof. unfold inc1. rewrite !nthZ_of_nat. cbn [nth_error]. destruct (nth_error t n); [|reflexivity]. rewrite !updZ_nat. reflexivity. Qed.
+Lemma grp_core (f f' : Z -> Z) k d : f' k = f k + d -> (forall o, o <> k -> f' o = f o) ->
+  forall gs, NoDup (concat gs) ->
+  (if memZ k (concat gs) then inc1 (map (fun g => zsum (map f g)) gs) (Z.of_nat (gidxN k gs)) d
+   else Some (map (fun g => zsum (map f g)) gs)) = Some (map (fun g => zsum (map f' g)) gs).
+Proof.
+  intros Hk Ho. induction gs as [|g r IH]; intros Hnd; [reflexivity|].
+  cbn [concat] in *. rewrite memZ_app. cbn [gidxN map].
+  pose proof (NoDup_app_left _ _ Hnd) as Hg. pose proof (tk_NoDup_app_r _ _ Hnd) as Hr.
+  destruct (memZ k g) eqn:Em.
+  - cbn [orb]. apply memZ_In in Em. rewrite inc1_cons_0. f_equal. f_equal.
+    + symmetry. apply (zsum_change f f' g k d); assumption.
+    + apply map_ext_in. intros g' Hg'. f_equal. apply map_ext_in. intros o Hoin. symmetry. apply Ho. intros ->.
+      assert (Hc : In k (concat r)) by (apply in_concat; eauto).
+      clear -Hnd Em Hc. induction g as [|y g IHg]; [destruct Em|]. cbn in Hnd. inversion Hnd as [|? ? Hn Hd]; subst.
+      destruct Em as [->|Em]; [apply Hn, in_or_app; auto|auto].
+  - cbn [orb]. assert (E0 : zsum (map f' g) = zsum (map f g)).
+    { f_equal. apply map_ext_in. intros o Hoin. apply Ho. intros ->. exact (memZ_false _ _ Em Hoin). }
+    rewrite E0. specialize (IH Hr). destruct (memZ k (concat r)).
+    + rewrite inc1_cons_S, IH. reflexivity.
+    + injection IH as <-. reflexivity.
+Qed.
+Lemma grp_sim gs pops c pops' : NoDup (concat gs) -> np_step pops c = Some pops' -> grp_step gs (grp_of gs pops) c = Some (grp_of gs pops').
+Proof.
+  intros Hnd. destruct c; cbn [np_step grp_step]; intros H; try (injection H as <-; reflexivity);
+    destruct (popz_inc _ _ _ _ H) as [P1 P2]; apply (grp_core (popz pops) (popz pops')); assumption.
+Qed.
+Theorem run_many_subset_grouped2 cf ds s s' : Idx s -> run_many cf s ds = Ok s' ->
+  (forall obs, NoDup obs -> orun (sub_step obs) (calls_many cf s ds) (sub_true obs s) = Some (sub_true obs s')) /\
+  (forall gs, NoDup (concat gs) -> orun (grp_step gs) (calls_many cf s ds) (grp_true gs s) = Some (grp_true gs s')).
+Proof.
+  intros HI H. destruct (run_many_trackers2 cf ds s s' HI H) as [_ [_ T]]. split.
+  - intros obs Hnd. exact (orun_map np_step (sub_step obs) (sub_of obs) (fun a c a' => sub_sim obs a c a' Hnd) _ _ _ T).
+  - intros gs Hnd. exact (orun_map np_step (grp_step gs) (grp_of gs) (fun a c a' => grp_sim gs a c a' Hnd) _ _ _ T).
 Qed.
